@@ -142,7 +142,9 @@ pub fn regime_b<K: Kt>(seed: u64) -> History {
     for (j, &k) in fill.iter().enumerate() {
         ops.push(Op::Put(k, vs(1 << 20, 100 + j as u32)));
     }
-    let lens: Vec<usize> = (0..24_000).map(|_| rng.range(3, 14) as usize).collect();
+    // (enough records for the key file to cross eight or more chunk boundaries: whether an offset field straddles one
+    // depends on where the records happen to start)
+    let lens: Vec<usize> = (0..56_000).map(|_| rng.range(3, 14) as usize).collect();
     let small = distinct_keys::<K>(&mut rng, &lens, &mut seen, &mut keys);
     for (j, &k) in small.iter().enumerate() {
         ops.push(Op::Put(k, vs((j % 9) as u32, j as u32)));
@@ -171,8 +173,103 @@ pub fn regime_b<K: Kt>(seed: u64) -> History {
         cfg: Cfg { buckets: Buckets::Size(n), key: Buf::PerMille(1000), val: Buf::Auto, htx: Buf::PerMille(1000) },
         keys,
         ops,
-        origin: format!("big regime B (value file beyond 16 MiB, 24000 short records across key-file chunks) seed={seed} table={n}"),
+        origin: format!("big regime B (value file beyond 16 MiB, 56000 short records across key-file chunks) seed={seed} table={n}"),
     }
+}
+
+/// variant S ("steered"): like B, but the layout of the key file is computed in advance (pure appends, every key in a
+/// bucket of its own, sizing as documented), so that at each of the first chunk boundaries of the key-file buffer
+/// (multiples of 128 KiB) a record starts exactly 8 bytes before the boundary with a key of 3, 4 or 5 bytes: its 4-byte
+/// value-offset field (value file beyond 16 MiB) then straddles the boundary 3|1, 2|2 or 1|3. Returns the history and
+/// the key-file length the computation predicts (compared with the real one afterwards: `steer.*` counters).
+pub fn regime_s<K: Kt>(seed: u64) -> (History, u64) {
+    use crate::decoder::{bucket_of, vu_len};
+    use crate::ops::{key_slot, value_slot};
+    let mut rng = Rng::new(seed ^ 0xB165);
+    let n: u64 = 65536;
+    let mut used_buckets = std::collections::HashSet::new();
+    let mut seen = std::collections::HashSet::new();
+    let mut keys: Vec<Vec<u8>> = Vec::new();
+    let mut ops: Vec<Op> = Vec::new();
+    let (mut kp, mut vp) = (192u64, 192u64); // predicted ends of the key and the value file
+    let mut fresh_key = |rng: &mut Rng, len: usize, used: &mut std::collections::HashSet<u64>, seen: &mut std::collections::HashSet<Vec<u8>>| -> Vec<u8> {
+        loop {
+            let k = K::make_key(rng, len);
+            if k.len() == len && !used.contains(&bucket_of(&k, n)) && seen.insert(k.clone()) {
+                used.insert(bucket_of(&k, n));
+                return k;
+            }
+        }
+    };
+    let mut put = |keys: &mut Vec<Vec<u8>>, ops: &mut Vec<Op>, k: Vec<u8>, vlen: u32, kp: &mut u64, vp: &mut u64| -> usize {
+        let wv = vu_len(*vp) as u64;
+        *kp += key_slot(k.len() as u64, wv, 1);
+        *vp += value_slot(vlen as u64);
+        keys.push(k);
+        ops.push(Op::Put(keys.len() - 1, vs(vlen, keys.len() as u32)));
+        keys.len() - 1
+    };
+    // first boundary: value offsets between 128 KiB and 2 MiB (3-byte field, split 2|1); then the value file is pushed
+    // beyond 16 MiB and the following boundaries get 4-byte fields
+    for _ in 0..2 {
+        let k = fresh_key(&mut rng, 12, &mut used_buckets, &mut seen);
+        put(&mut keys, &mut ops, k, 100_000, &mut kp, &mut vp);
+    }
+    let mut straddlers: Vec<usize> = Vec::new();
+    let boundaries = 4 + (seed % 2);
+    for b in 1..=boundaries {
+        if b == 2 {
+            for _ in 0..17 {
+                let k = fresh_key(&mut rng, 12, &mut used_buckets, &mut seen);
+                put(&mut keys, &mut ops, k, 1 << 20, &mut kp, &mut vp);
+            }
+        }
+        let target = b * 131072 - 8;
+        while kp < target {
+            let gap = target - kp;
+            // 16-byte slots (keys of 3..9 bytes), one 24-byte slot (10..17 bytes) when the gap is 8 mod 16
+            let len = if gap % 16 == 8 && gap >= 24 { rng.range(10, 17) } else { rng.range(3, 9) } as usize;
+            let k = fresh_key(&mut rng, len, &mut used_buckets, &mut seen);
+            put(&mut keys, &mut ops, k, (kp % 7) as u32, &mut kp, &mut vp);
+        }
+        if kp == target {
+            let len = [4usize, 3, 5, 4][(b as usize + seed as usize) % 4];
+            let k = fresh_key(&mut rng, len, &mut used_buckets, &mut seen);
+            straddlers.push(put(&mut keys, &mut ops, k, 5, &mut kp, &mut vp));
+        }
+    }
+    for _ in 0..40 {
+        let len = rng.range(3, 9) as usize;
+        let k = fresh_key(&mut rng, len, &mut used_buckets, &mut seen);
+        put(&mut keys, &mut ops, k, 3, &mut kp, &mut vp);
+    }
+    for &k in straddlers.iter() {
+        ops.push(Op::Get(k));
+        ops.push(Op::Has(k));
+    }
+    ops.push(Op::Flush);
+    ops.push(Op::Iter((seed % 7) as usize, usize::MAX));
+    ops.push(Op::Reopen(Cfg { buckets: Buckets::Size(8), key: Buf::Auto, val: Buf::Auto, htx: Buf::Auto }));
+    for &k in straddlers.iter() {
+        ops.push(Op::Get(k));
+    }
+    ops.push(Op::Iter(((seed + 2) % 7) as usize, usize::MAX));
+    ops.push(Op::BulkGet(straddlers.clone()));
+    // overwrite the straddlers (their value moves; the record is rewritten in place or moves) and read them again
+    for &k in straddlers.iter() {
+        ops.push(Op::Put(k, vs(40, 9)));
+        ops.push(Op::Get(k));
+    }
+    ops.push(Op::Stats);
+    ops.push(Op::SyncData);
+    let h = History {
+        kt: K::NAME.into(),
+        cfg: Cfg { buckets: Buckets::Size(n), key: Buf::PerMille(1000), val: Buf::Auto, htx: Buf::PerMille(1000) },
+        keys,
+        ops,
+        origin: format!("big regime S (value file beyond 16 MiB, records steered so that 4-byte offset fields straddle {} chunk boundaries of the key file) seed={seed}", straddlers.len()),
+    };
+    (h, kp)
 }
 
 /// variant C: a log value that grows by one slot step more than a thousand times (every earlier slot ends on the shared
@@ -314,7 +411,7 @@ fn owners_for(prop: &str) -> Vec<&'static str> {
 /// errs, returns a wrong value), the history cannot go on - but the property of this stage can still be judged at
 /// the point reached: the one key whose state is undefined is re-read from the map itself, then the monitor of
 /// this property runs (close/reopen/compare; traversals; flush and decode; statistics).
-fn run_with_salvage<K: Kt>(a: &Args, h: &History, mon: &Mon, prop: &'static str, ctx: &mut Ctx) {
+fn run_with_salvage<K: Kt>(a: &Args, h: &History, mon: &Mon, prop: &'static str, expect_key_len: Option<u64>, ctx: &mut Ctx) {
     use crate::session::{run_ops, Session, Stop};
     let dir = a.scratch.join("h_big");
     let _ = std::fs::remove_dir_all(&dir);
@@ -371,6 +468,13 @@ fn run_with_salvage<K: Kt>(a: &Args, h: &History, mon: &Mon, prop: &'static str,
     }
     if let Ok(md) = std::fs::metadata(dir.join("m.key")) {
         ctx.max("max_key_file", md.len());
+        // the steered layout: did the key file come out as computed? (if not, the run is still a valid history, but the
+        // records did not sit where they were meant to; the driver's coverage floor asks for at least one hit)
+        if let Some(e) = expect_key_len {
+            if stop.is_none() {
+                ctx.count(if md.len() == e { "steer.key_file_length_as_predicted" } else { "steer.key_file_length_differs" }, 1);
+            }
+        }
     }
     let d = crate::util::digest64(7, h.origin.as_bytes());
     ctx.digests.insert(d);
@@ -417,7 +521,7 @@ pub fn run(a: &Args) -> Ctx {
     // shard -> (variant, key type)
     let typed_only = prop == "C10";
     let kts: &[&str] = if typed_only { &["u64", "string", "vu64", "i64"] } else { &["bytes", "string", "u64", "vu64", "bytes", "i64"] };
-    let variants: &[&str] = if a.get_u64("huge", 0) == 1 { &["H"] } else { &["A", "B", "C", "A"] };
+    let variants: &[&str] = if a.get_u64("huge", 0) == 1 { &["H"] } else { &["A", "S", "C", "B"] };
     let variant = variants[a.shard % variants.len()];
     let mut kt = kts[(a.shard + a.shard / variants.len() + a.seed as usize) % kts.len()];
     if variant == "A" && a.shard % 8 == 0 {
@@ -425,7 +529,18 @@ pub fn run(a: &Args) -> Ctx {
         kt = if typed_only || a.seed % 2 == 1 { "string" } else { "bytes" };
     }
     let huge_val = a.thorough || a.shard % 8 == 0;
-    let mut h = history_for(kt, variant, a.shard_seed(), huge_val);
+    let mut expect_key_len: Option<u64> = None;
+    if variant == "S" {
+        // (needs keys of chosen lengths: byte-string key types only)
+        kt = if (a.shard / variants.len() + a.seed as usize) % 2 == 0 { "bytes" } else { "string" };
+    }
+    let mut h = if variant == "S" {
+        let (h, kl) = if kt == "bytes" { regime_s::<abyssiniandb::DbBytes>(a.shard_seed()) } else { regime_s::<abyssiniandb::DbString>(a.shard_seed()) };
+        expect_key_len = Some(kl);
+        h
+    } else {
+        history_for(kt, variant, a.shard_seed(), huge_val)
+    };
     if prop == "C07" {
         let mut r = Rng::new(a.shard_seed() ^ 0xC07);
         let keep = h.cfg.buckets;
@@ -474,13 +589,13 @@ pub fn run(a: &Args) -> Ctx {
         }
     }
     ctx.max("bigreg.max_val_len", max_val);
-    if all_reads || prop == "C14" {
+    if (all_reads || prop == "C14") && expect_key_len.is_none() {
         super::run_and_record(a, &h, &mon, &mut ctx, "big");
     } else {
-        fn go<K: Kt>(a: &Args, h: &History, mon: &Mon, prop: &'static str, ctx: &mut Ctx) {
-            run_with_salvage::<K>(a, h, mon, prop, ctx)
+        fn go<K: Kt>(a: &Args, h: &History, mon: &Mon, prop: &'static str, expect_key_len: Option<u64>, ctx: &mut Ctx) {
+            run_with_salvage::<K>(a, h, mon, prop, expect_key_len, ctx)
         }
-        with_kt!(kt, go(a, &h, &mon, prop, &mut ctx));
+        with_kt!(kt, go(a, &h, &mon, prop, expect_key_len, &mut ctx));
     }
     let _ = gen_bytes(0, 0, 0);
     ctx
